@@ -111,7 +111,7 @@ func (o *c04Oracle) after(ch *chain, ci *callInfo) *Violation {
 	return nil
 }
 
-var c04Profile = &histProfile{Scripts: true, Batches: true, OwnerBias: 3, MaxBlocks: 24, Evidence: 4, Missed: 2, Restart: 12, MaxTxs: 5,
+var c04Profile = &histProfile{ScriptGov: []string{"raisemin", "lowermin", "lowermax"}, ScriptTemplates: slashStateTemplates, Scripts: true, Batches: true, OwnerBias: 3, MaxBlocks: 24, Evidence: 4, Missed: 2, Restart: 12, MaxTxs: 5,
 	TxKinds: []string{"stake", "stake", "stake", "unstake", "unstake", "unjail", "send", "send", "award", "burn", "burn", "param"}}
 
 func genC04(t *rapid.T, tier string) interface{} {
